@@ -1,11 +1,19 @@
 import Sigc.Model
 import Sigc.Lemmas.Basic
+import Sigc.Lemmas.StepIter
 /-!
 # C13 — emission results: last slot's value, or the accumulator's verdict
-(first theorems about `slot_iterator_buf::operator*` = `deref`; more in Sigc/Lemmas/Step*.lean)
+
+Theorems about the mechanism model `P` (`Sigc.Model`): `deref` = `slot_iterator_buf::operator*`,
+`accLoop/revLoop/walkLoop` = the accumulator strategies, `emitLoop` = the non-accumulating emitters,
+`emitImpl` = `emitter::emit`.  All statements hold for every state, program and fuel (no enumeration);
+helper lemmas and the concrete example states (`exSt`, `exImpl`, `exProg`) are in
+`Sigc/Lemmas/StepIter*.lean`.
 -/
 namespace Sigc.C13
-open Sigc.Model
+open Sigc.Model Sigc.StepIter
+
+/-! ## `deref_once`: dereferencing invokes at most once per position, never a blocked/invalid one -/
 
 /-- dereferencing a position again without moving invokes nothing and returns the buffered value:
     state, outcome and iterator are unchanged — whatever the slot, program and fuel -/
@@ -20,6 +28,20 @@ theorem deref_twice_invokes_once (f : Nat) (P : Prog) (s : St) (i arg : Nat) (it
     obtain ⟨call, fn⟩ := rp
     cases call <;> cases fn <;> simp [hinv]
 
+example : deref 1 exProg exSt 1 { pos := 2, invoked := true, buf := 42 } 5
+    = some (exSt, .ok, { pos := 2, invoked := true, buf := 42 }) :=
+  deref_twice_invokes_once 0 _ _ _ _ _ exImpl (exCell 2 7 false) rfl rfl rfl
+
+/-- (a) in *every* state (also when the list or the cell is gone) an already-invoked position is not
+    invoked again: the iterator is returned unchanged and the state is unchanged up to the model's
+    error flag -/
+theorem deref_once_invoked (f : Nat) (P : Prog) (s : St) (i arg : Nat) (it : IterBuf) (hinv : it.invoked = true) :
+    ∃ s', deref (f+1) P s i it arg = some (s', .ok, it) ∧ (s' = s ∨ ∃ msg, s' = s.fail msg) :=
+  deref_invoked f P s i arg it hinv
+
+example : ∃ s', deref 1 exProg {} 1 { pos := 2, invoked := true } 5 = some (s', .ok, { pos := 2, invoked := true }) ∧
+    (s' = {} ∨ ∃ msg, s' = St.fail {} msg) := deref_once_invoked 0 _ _ _ _ _ rfl
+
 /-- a blocked position is never invoked -/
 theorem deref_blocked_not_invoked (f : Nat) (P : Prog) (s : St) (i arg : Nat) (it : IterBuf) (im : Impl) (c : Cell)
     (hi : aget s.impls i = some im) (hc : im.cells.find? (·.id = it.pos) = some c) (hb : c.slot.blocked = true) :
@@ -31,6 +53,9 @@ theorem deref_blocked_not_invoked (f : Nat) (P : Prog) (s : St) (i arg : Nat) (i
   | some rp =>
     obtain ⟨call, fn⟩ := rp
     cases call <;> cases fn <;> simp [hb]
+
+example : deref 1 exProg exSt 1 { pos := 3 } 5 = some (exSt, .ok, { pos := 3 }) :=
+  deref_blocked_not_invoked 0 _ _ _ _ _ exImpl (exCell 3 8 true) rfl rfl rfl
 
 /-- an empty / invalidated position (or an end marker) is never invoked -/
 theorem deref_invalid_not_invoked (f : Nat) (P : Prog) (s : St) (i arg : Nat) (it : IterBuf) (im : Impl) (c : Cell)
@@ -48,6 +73,20 @@ theorem deref_invalid_not_invoked (f : Nat) (P : Prog) (s : St) (i arg : Nat) (i
     subst this
     rfl
 
+example : deref 1 exProg exSt 1 { pos := 5 } 5 = some (exSt, .ok, { pos := 5 }) :=
+  deref_invalid_not_invoked 0 _ _ _ _ _ exImpl _ rfl rfl rfl
+
+/-- (b) a position that is not callable at that moment — blocked, no rep, `call_ = nullptr`, functor
+    released (`fn = none`), the end marker, cell or list gone (`callableAt … = none`) — is not invoked:
+    iterator unchanged, state unchanged up to the model's error flag -/
+theorem deref_once_not_callable (f : Nat) (P : Prog) (s : St) (i arg : Nat) (it : IterBuf)
+    (hnc : callableAt s i it.pos = none) :
+    ∃ s', deref (f+1) P s i it arg = some (s', .ok, it) ∧ (s' = s ∨ ∃ msg, s' = s.fail msg) :=
+  deref_not_callable f P s i arg it hnc
+
+example : ∃ s', deref 1 exProg exSt 1 { pos := 3 } 5 = some (s', .ok, { pos := 3 }) ∧
+    (s' = exSt ∨ ∃ msg, s' = exSt.fail msg) := deref_once_not_callable 0 _ _ _ _ _ (by decide)
+
 /-- a successful first dereference of a callable position buffers the functor's result and marks the position invoked -/
 theorem deref_callable (f : Nat) (P : Prog) (s s' : St) (i arg v : Nat) (it : IterBuf) (im : Impl) (c : Cell) (fn : Fun)
     (hi : aget s.impls i = some im) (hc : im.cells.find? (·.id = it.pos) = some c)
@@ -57,14 +96,347 @@ theorem deref_callable (f : Nat) (P : Prog) (s s' : St) (i arg v : Nat) (it : It
   rw [deref]
   simp [hi, hc, hrep, hb, hinv, hx]
 
+example : deref 2 exProg exSt 1 { pos := 2 } 5
+    = some (exSt.log (.call 0 7 5), .ok, { pos := 2, invoked := true, buf := 75 }) :=
+  deref_callable 1 _ _ _ _ _ _ _ exImpl (exCell 2 7 false) _ rfl rfl rfl rfl rfl
+    (invokeFun_leaf_nobody 0 exProg exSt 7 5 [] rfl)
+
+/-- everything a dereference can do, in every state: either nothing is invoked (iterator and state
+    unchanged up to the error flag), or *exactly one* `invokeFun` call on the functor callable at the
+    position, made only if the position was not yet invoked; on success its value is buffered and the
+    flag set, on an exception the iterator is unchanged -/
+theorem deref_once_result (f : Nat) (P : Prog) (s s' : St) (i arg : Nat) (it it' : IterBuf) (o : Outcome)
+    (h : deref (f+1) P s i it arg = some (s', o, it')) :
+    (it' = it ∧ o = .ok ∧ (s' = s ∨ ∃ msg, s' = s.fail msg)) ∨
+    (∃ fn, callableAt s i it.pos = some fn ∧ it.invoked = false ∧
+       ((∃ v, invokeFun f P s fn arg = some (s', .exc, v) ∧ o = .exc ∧ it' = it) ∨
+        (∃ v, invokeFun f P s fn arg = some (s', .ok, v) ∧ o = .ok ∧
+              it' = { it with buf := v, invoked := true }))) :=
+  deref_result f P s s' i arg it it' o h
+
+/-- (c) after a successful dereference of a callable, not yet invoked position: flag set, same
+    position, buffer = the value `invokeFun` returned for the functor of that position -/
+theorem deref_once_sets_flag (f : Nat) (P : Prog) (s s' : St) (i arg : Nat) (it it' : IterBuf) (fn : Fun)
+    (hc : callableAt s i it.pos = some fn) (hinv : it.invoked = false)
+    (h : deref (f+1) P s i it arg = some (s', .ok, it')) :
+    it'.invoked = true ∧ it'.pos = it.pos ∧ invokeFun f P s fn arg = some (s', .ok, it'.buf) := by
+  rcases deref_result f P s s' i arg it it' .ok h with ⟨rfl, _, hs⟩ | ⟨fn', hc', _, h2 | h2⟩
+  · -- nothing invoked: impossible for a callable, not yet invoked position
+    exfalso
+    rw [deref_cases] at h
+    obtain ⟨im, c, hi, hcell, _, _⟩ := callableAt_eq_some s i _ fn hc
+    simp only [hinv, hi, hcell, hc] at h
+    simp at h
+    split at h
+    · simp at h
+    · simp at h
+    · simp at h
+      have := congrArg IterBuf.invoked h.2
+      simp [hinv] at this
+  · obtain ⟨v, _, ho, _⟩ := h2; cases ho
+  · obtain ⟨v, hx, _, rfl⟩ := h2
+    rw [hc] at hc'; cases hc'
+    exact ⟨rfl, rfl, hx⟩
+
+example : ({ pos := 2, invoked := true, buf := 75 } : IterBuf).invoked = true ∧
+    ({ pos := 2, invoked := true, buf := 75 } : IterBuf).pos = ({ pos := 2 } : IterBuf).pos ∧
+    invokeFun 1 exProg exSt (.leaf 7 []) 5 = some (exSt.log (.call 0 7 5), .ok, 75) :=
+  deref_once_sets_flag 1 exProg exSt _ 1 5 { pos := 2 } _ (.leaf 7 []) rfl rfl
+    (deref_callable 1 _ _ _ _ _ _ _ exImpl (exCell 2 7 false) _ rfl rfl rfl rfl rfl
+      (invokeFun_leaf_nobody 0 exProg exSt 7 5 [] rfl))
+
+/-- `operator*` never moves the iterator -/
+theorem deref_keeps_pos (f : Nat) (P : Prog) (s s' : St) (i arg : Nat) (it it' : IterBuf) (o : Outcome)
+    (h : deref f P s i it arg = some (s', o, it')) : it'.pos = it.pos :=
+  deref_pos f P s s' i arg it it' o h
+
+/-- the flag is only ever set by `operator*` (it is reset by the moves `++`/`--` alone, see below) -/
+theorem deref_keeps_flag (f : Nat) (P : Prog) (s s' : St) (i arg : Nat) (it it' : IterBuf) (o : Outcome)
+    (h : deref f P s i it arg = some (s', o, it')) (hinv : it.invoked = true) : it'.invoked = true :=
+  deref_invoked_mono f P s s' i arg it it' o h hinv
+
+/-- (d) dereferencing twice in a row invokes once: the iterator returned by a successful dereference of
+    a callable position is returned unchanged by any later dereference — in ANY later state, for any
+    program, fuel, list and argument — and that later dereference invokes nothing -/
+theorem deref_once (f : Nat) (P : Prog) (s s1 : St) (i arg : Nat) (it it1 : IterBuf) (fn : Fun)
+    (hc : callableAt s i it.pos = some fn)
+    (h : deref (f+1) P s i it arg = some (s1, .ok, it1)) :
+    ∀ (f2 : Nat) (P2 : Prog) (s2 : St) (i2 arg2 : Nat),
+      ∃ s3, deref (f2+1) P2 s2 i2 it1 arg2 = some (s3, .ok, it1) ∧ (s3 = s2 ∨ ∃ msg, s3 = s2.fail msg) := by
+  intro f2 P2 s2 i2 arg2
+  apply deref_invoked
+  cases hinv : it.invoked with
+  | true => exact deref_invoked_mono _ P s s1 i arg it it1 .ok h hinv
+  | false => exact (deref_once_sets_flag f P s s1 i arg it it1 fn hc hinv h).1
+
+example : ∀ (f2 : Nat) (P2 : Prog) (s2 : St) (i2 arg2 : Nat),
+    ∃ s3, deref (f2+1) P2 s2 i2 { pos := 2, invoked := true, buf := 75 } arg2
+            = some (s3, .ok, { pos := 2, invoked := true, buf := 75 }) ∧ (s3 = s2 ∨ ∃ msg, s3 = s2.fail msg) :=
+  deref_once 1 exProg exSt _ 1 5 { pos := 2 } _ (.leaf 7 []) rfl
+    (deref_callable 1 _ _ _ _ _ _ _ exImpl (exCell 2 7 false) _ rfl rfl rfl rfl rfl
+      (invokeFun_leaf_nobody 0 exProg exSt 7 5 [] rfl))
+
+/-! ## `buffer_defined` -/
+
+/-- the value-initialised buffer: a fresh iterator holds 0 and is not yet invoked -/
+theorem fresh_iterator (p : Nat) : ({ pos := p } : IterBuf).buf = 0 ∧ ({ pos := p } : IterBuf).invoked = false := ⟨rfl, rfl⟩
+
+/-- the buffer after `operator*` is the old buffer or the value just returned by the invoked functor;
+    with the value-initialised buffer `runStrat` starts from (`fresh_iterator`) every value an
+    accumulator reads is 0 or a functor result -/
+theorem buffer_defined (f : Nat) (P : Prog) (s s' : St) (i arg : Nat) (it it' : IterBuf) (o : Outcome)
+    (h : deref (f+1) P s i it arg = some (s', o, it')) :
+    it'.buf = it.buf ∨ ∃ fn, callableAt s i it.pos = some fn ∧ invokeFun f P s fn arg = some (s', .ok, it'.buf) := by
+  rcases deref_result f P s s' i arg it it' o h with ⟨rfl, _, _⟩ | ⟨fn, hc, _, h2 | h2⟩
+  · exact Or.inl rfl
+  · obtain ⟨v, _, _, rfl⟩ := h2; exact Or.inl rfl
+  · obtain ⟨v, hx, _, rfl⟩ := h2; exact Or.inr ⟨fn, hc, hx⟩
+
+example : (75 : Nat) = (0 : Nat) ∨ ∃ fn, callableAt exSt 1 2 = some fn ∧
+    invokeFun 1 exProg exSt fn 5 = some (exSt.log (.call 0 7 5), .ok, 75) :=
+  buffer_defined 1 exProg exSt _ 1 5 { pos := 2 } { pos := 2, invoked := true, buf := 75 } .ok
+    (deref_callable 1 _ _ _ _ _ _ _ exImpl (exCell 2 7 false) _ rfl rfl rfl rfl rfl
+      (invokeFun_leaf_nobody 0 exProg exSt 7 5 [] rfl))
+
+/-! ## `bidirectional` -/
+
+/-- `--(++it)` is at the same cell, in any list without duplicate ids -/
+theorem bidirectional (cells : List Cell) (k n : Nat) (hnd : (cells.map (·.id)).Nodup)
+    (h : succId cells k = some n) : predId cells n = some k :=
+  predId_of_succId cells k n hnd h
+
+example : predId exImpl.cells 3 = some 2 := bidirectional exImpl.cells 2 3 (by decide) (by decide)
+
+/-- `++(--it)` is at the same cell -/
+theorem bidirectional_converse (cells : List Cell) (k n : Nat) (hnd : (cells.map (·.id)).Nodup)
+    (h : predId cells n = some k) : succId cells k = some n :=
+  succId_of_predId cells k n hnd h
+
+example : succId exImpl.cells 4 = some 5 := bidirectional_converse exImpl.cells 4 5 (by decide) (by decide)
+
+/-- hence `++` and `--` are mutually inverse partial maps on the ids of the list -/
+theorem bidirectional_iff (cells : List Cell) (k n : Nat) (hnd : (cells.map (·.id)).Nodup) :
+    succId cells k = some n ↔ predId cells n = some k :=
+  ⟨predId_of_succId cells k n hnd, succId_of_predId cells k n hnd⟩
+
+/-- moves stay inside the list -/
+theorem moves_stay_in_list (cells : List Cell) (k n : Nat) :
+    (succId cells k = some n → k ∈ cells.map (·.id) ∧ n ∈ cells.map (·.id)) ∧
+    (predId cells n = some k → k ∈ cells.map (·.id) ∧ n ∈ cells.map (·.id)) := by
+  refine ⟨fun h => ⟨succId_src_mem _ _ _ h, succId_mem _ _ _ h⟩, fun h => ⟨predId_mem _ _ _ h, ?_⟩⟩
+  have := predId_tgt_mem_tail _ _ _ h
+  cases cells with
+  | nil => simp at this
+  | cons c t => simp at this ⊢; right; exact this
+
+/-- every position but the last has a successor (so the walk from `begin()` reaches the end marker) -/
+theorem succ_exists (cells : List Cell) (k : Nat) (h : k ∈ cells.dropLast.map (·.id)) :
+    ∃ n, succId cells k = some n :=
+  succId_isSome_of_mem_dropLast cells k h
+
+example : ∃ n, succId exImpl.cells 4 = some n := succ_exists exImpl.cells 4 (by decide)
+
+/-! ## movement: the loops move only by `succId`/`predId` of the *current* list and reset the flag -/
+
+theorem accLoop_stops_at_end (f : Nat) (P : Prog) (s : St) (i : Nat) (it : IterBuf) (m arg mode k r : Nat)
+    (h : it.pos = m) : accLoop (f+1) P s i it m arg mode k r = some (s, .ok, r) :=
+  accLoop_at_end f P s i it m arg mode k r h
+
+/-- `never`: `++it` without dereferencing -/
+theorem accLoop_never_moves (f : Nat) (P : Prog) (s : St) (i : Nat) (it : IterBuf) (m arg k r : Nat)
+    (im : Impl) (nxt : Nat) (hne : it.pos ≠ m) (hi : aget s.impls i = some im)
+    (hn : succId im.cells it.pos = some nxt) :
+    accLoop (f+1) P s i it m arg 3 k r
+      = accLoop f P s i { it with pos := nxt, invoked := false } m arg 3 k (r + 1) :=
+  accLoop_never_step f P s i it m arg k r im nxt hne hi hn
+
+example : accLoop 2 exProg exSt 1 { pos := 4, invoked := true, buf := 9 } 5 0 3 0 0 = some (exSt, .ok, 1) := by
+  rw [accLoop_never_moves 1 exProg exSt 1 _ 5 0 0 0 exImpl 5 (by decide) rfl (by decide)]
+  exact accLoop_stops_at_end 0 _ _ _ _ _ _ _ _ _ rfl
+
+/-- `sum`: `r += *it; ++it` — successor taken in the list as it is after the slot ran -/
+theorem accLoop_sum_moves (f : Nat) (P : Prog) (s s1 : St) (i : Nat) (it it' : IterBuf) (m arg k r : Nat)
+    (im : Impl) (nxt : Nat) (hne : it.pos ≠ m) (hd : deref f P s i it arg = some (s1, .ok, it'))
+    (hi : aget s1.impls i = some im) (hn : succId im.cells it'.pos = some nxt) :
+    accLoop (f+1) P s i it m arg 0 k r
+      = accLoop f P s1 i { it' with pos := nxt, invoked := false } m arg 0 k (r + it'.buf) :=
+  accLoop_sum_step f P s s1 i it it' m arg k r im nxt hne hd hi hn
+
+/-- `stop k`: returns as soon as the running sum reaches `k` (later positions are never dereferenced) -/
+theorem accLoop_stop_returns (f : Nat) (P : Prog) (s s1 : St) (i : Nat) (it it' : IterBuf) (m arg k r : Nat)
+    (hne : it.pos ≠ m) (hd : deref f P s i it arg = some (s1, .ok, it')) (hk : r + it'.buf ≥ k) :
+    accLoop (f+1) P s i it m arg 1 k r = some (s1, .ok, r + it'.buf) :=
+  accLoop_stop_reached f P s s1 i it it' m arg k r hne hd hk
+
+theorem accLoop_stop_moves (f : Nat) (P : Prog) (s s1 : St) (i : Nat) (it it' : IterBuf) (m arg k r : Nat)
+    (im : Impl) (nxt : Nat) (hne : it.pos ≠ m) (hd : deref f P s i it arg = some (s1, .ok, it'))
+    (hk : r + it'.buf < k) (hi : aget s1.impls i = some im) (hn : succId im.cells it'.pos = some nxt) :
+    accLoop (f+1) P s i it m arg 1 k r
+      = accLoop f P s1 i { it' with pos := nxt, invoked := false } m arg 1 k (r + it'.buf) :=
+  accLoop_stop_step f P s s1 i it it' m arg k r im nxt hne hd hk hi hn
+
+/-- `twice`: `r += *it; r += *it; ++it` — the second dereference is of the iterator the first returned -/
+theorem accLoop_twice_moves (f : Nat) (P : Prog) (s s1 s2 : St) (i : Nat) (it it' it2 : IterBuf) (m arg k r : Nat)
+    (im : Impl) (nxt : Nat) (hne : it.pos ≠ m) (hd : deref f P s i it arg = some (s1, .ok, it'))
+    (hd2 : deref f P s1 i it' arg = some (s2, .ok, it2))
+    (hi : aget s2.impls i = some im) (hn : succId im.cells it2.pos = some nxt) :
+    accLoop (f+1) P s i it m arg 2 k r
+      = accLoop f P s2 i { it2 with pos := nxt, invoked := false } m arg 2 k (r + it'.buf + it2.buf) :=
+  accLoop_twice_step f P s s1 s2 i it it' it2 m arg k r im nxt hne hd hd2 hi hn
+
+/-- `postinc`: `old = it++; r += *old` -/
+theorem accLoop_postinc_moves (f : Nat) (P : Prog) (s s1 : St) (i : Nat) (it it' : IterBuf) (m arg k r : Nat)
+    (im : Impl) (nxt : Nat) (hne : it.pos ≠ m) (hd : deref f P s i it arg = some (s1, .ok, it'))
+    (hi : aget s1.impls i = some im) (hn : succId im.cells it.pos = some nxt) :
+    accLoop (f+1) P s i it m arg 4 k r
+      = accLoop f P s1 i { it with pos := nxt, invoked := false } m arg 4 k (r + it'.buf) :=
+  accLoop_postinc_step f P s s1 i it it' m arg k r im nxt hne hd hi hn
+
+/-- an exception leaves the accumulator at once with the outcome `exc` -/
+theorem accLoop_exception (f : Nat) (P : Prog) (s s1 : St) (i : Nat) (it it' : IterBuf) (m arg mode k r : Nat)
+    (hne : it.pos ≠ m) (hm : mode ≠ 3) (hd : deref f P s i it arg = some (s1, .exc, it')) :
+    accLoop (f+1) P s i it m arg mode k r = some (s1, .exc, r) :=
+  accLoop_exc f P s s1 i it it' m arg mode k r hne hm hd
+
+/-- reverse walk: `--it` (predecessor in the current list, flag reset), then `r += *it` -/
+theorem revLoop_moves (f : Nat) (P : Prog) (s : St) (i : Nat) (it : IterBuf) (first arg r : Nat)
+    (im : Impl) (prv : Nat) (hne : it.pos ≠ first) (hi : aget s.impls i = some im)
+    (hp : predId im.cells it.pos = some prv) :
+    revLoop (f+1) P s i it first arg r =
+      (match deref f P s i { it with pos := prv, invoked := false } arg with
+       | none => none
+       | some (s, .exc, _) => some (s, .exc, r)
+       | some (s, .ok, it) => revLoop f P s i it first arg (r + it.buf)) :=
+  revLoop_step f P s i it first arg r im prv hne hi hp
+
+theorem revLoop_stops_at_begin (f : Nat) (P : Prog) (s : St) (i : Nat) (it : IterBuf) (first arg r : Nat)
+    (h : it.pos = first) : revLoop (f+1) P s i it first arg r = some (s, .ok, r) :=
+  revLoop_at_begin f P s i it first arg r h
+
+example : revLoop 3 exProg exSt 1 { pos := 4, invoked := true, buf := 9 } 3 5 0 = some (exSt, .ok, 9) := by
+  rw [revLoop_moves 2 exProg exSt 1 _ 3 5 0 exImpl 3 (by decide) rfl (by decide)]
+  rw [deref_blocked_not_invoked 1 _ _ _ _ _ exImpl (exCell 3 8 true) rfl rfl rfl]
+  exact revLoop_stops_at_begin _ _ _ _ _ _ _ _ rfl
+
+theorem walkLoop_inc_moves (f : Nat) (P : Prog) (s : St) (i : Nat) (it : IterBuf) (first m arg r : Nat) (cs : List Char)
+    (im : Impl) (nxt : Nat) (hne : it.pos ≠ m) (hi : aget s.impls i = some im)
+    (hn : succId im.cells it.pos = some nxt) :
+    walkLoop (f+1) P s i it first m arg ('i' :: cs) r
+      = walkLoop f P s i { it with pos := nxt, invoked := false } first m arg cs r :=
+  walkLoop_inc f P s i it first m arg r cs im nxt hne hi hn
+
+theorem walkLoop_dec_moves (f : Nat) (P : Prog) (s : St) (i : Nat) (it : IterBuf) (first m arg r : Nat) (cs : List Char)
+    (im : Impl) (prv : Nat) (hne : it.pos ≠ first) (hi : aget s.impls i = some im)
+    (hp : predId im.cells it.pos = some prv) :
+    walkLoop (f+1) P s i it first m arg ('x' :: cs) r
+      = walkLoop f P s i { it with pos := prv, invoked := false } first m arg cs r :=
+  walkLoop_dec f P s i it first m arg r cs im prv hne hi hp
+
+example : walkLoop 3 exProg exSt 1 { pos := 2, invoked := true, buf := 9 } 2 6 5 ['i', 'x'] 0 = some (exSt, .ok, 0) := by
+  rw [walkLoop_inc_moves 2 exProg exSt 1 _ 2 6 5 0 ['x'] exImpl 3 (by decide) rfl (by decide)]
+  rw [walkLoop_dec_moves 1 exProg exSt 1 _ 2 6 5 0 [] exImpl 2 (by decide) rfl (by decide)]
+  exact walkLoop_nil _ _ _ _ _ _ _ _ _
+
+/-- `d`: dereference in place (flag and buffer kept by the iterator that is moved later) -/
+theorem walkLoop_deref_step (f : Nat) (P : Prog) (s : St) (i : Nat) (it : IterBuf) (first m arg r : Nat) (cs : List Char)
+    (hne : it.pos ≠ m) :
+    walkLoop (f+1) P s i it first m arg ('d' :: cs) r =
+      (match deref f P s i it arg with
+       | none => none
+       | some (s, .exc, _) => some (s, .exc, r)
+       | some (s, .ok, it) => walkLoop f P s i it first m arg cs (r + it.buf)) :=
+  walkLoop_deref f P s i it first m arg r cs hne
+
+/-- `c`: a copy is dereferenced; the iterator itself keeps its flag (so a later `d` invokes again) -/
+theorem walkLoop_copy_step (f : Nat) (P : Prog) (s : St) (i : Nat) (it : IterBuf) (first m arg r : Nat) (cs : List Char)
+    (hne : it.pos ≠ m) :
+    walkLoop (f+1) P s i it first m arg ('c' :: cs) r =
+      (match deref f P s i it arg with
+       | none => none
+       | some (s, .exc, _) => some (s, .exc, r)
+       | some (s, .ok, cp) => walkLoop f P s i it first m arg cs (r + cp.buf)) :=
+  walkLoop_deref_copy f P s i it first m arg r cs hne
+
+/-! ## `acc_called_once_with_snapshot`: one accumulator call / one loop per emission -/
+
 /-- a signal that never had a slot list returns the default value and runs nothing -/
 theorem emit_without_impl (f : Nat) (P : Prog) (s : St) (fl : Flavour) (arg : Nat) (st : Strat) :
     emitImpl (f+1) P s fl none arg st = some (s, .ok, 0) := by
   rw [emitImpl]
 
-/-- the value-initialised buffer: a fresh iterator holds 0 and is not yet invoked -/
-theorem fresh_iterator (p : Nat) : ({ pos := p } : IterBuf).buf = 0 ∧ ({ pos := p } : IterBuf).invoked = false := ⟨rfl, rfl⟩
-
 example : emitImpl 1 { bodies := [], top := [] } {} .A none 3 .sum = some ({}, .ok, 0) := emit_without_impl 0 _ _ _ _ _
+
+/-- a non-accumulated emission of an empty list returns the default value and touches nothing -/
+theorem emit_empty_list (f : Nat) (P : Prog) (s : St) (fl : Flavour) (i arg : Nat) (strat : Strat) (im : Impl)
+    (hacc : fl.isAcc = false) (hi : aget s.impls i = some im) (he : im.cells = []) :
+    emitImpl (f+1) P s fl (some i) arg strat = some (s, .ok, 0) :=
+  emitImpl_plain_empty f P s fl i arg strat im hacc hi he
+
+example : emitImpl 1 exProg { impls := [(1, {})] } .I (some 1) 3 .sum = some ({ impls := [(1, {})] }, .ok, 0) :=
+  emit_empty_list 0 _ _ _ _ _ _ {} rfl rfl rfl
+
+/-- with an accumulator: `emit` = prologue (`emitPrologue`: counts raised, fresh end marker `s.next`
+    appended), then **exactly one** accumulator call `runStrat` over `[first, marker)` where `first` is
+    the first cell present at emission start (`emitFirst`; the marker itself for an empty list), then
+    the epilogue `emitEpilogue`, which runs no functor and no loop -/
+theorem acc_called_once (f : Nat) (P : Prog) (s : St) (fl : Flavour) (i arg : Nat) (strat : Strat) (im : Impl)
+    (hacc : fl.isAcc = true) (hi : aget s.impls i = some im) :
+    emitImpl (f+1) P s fl (some i) arg strat =
+      (match runStrat f P (emitPrologue s i im) i (emitFirst s im) s.next arg strat with
+       | none => none
+       | some (s2, o, v) => some (emitEpilogue s2 i s.next o v)) :=
+  emitImpl_acc_unfold f P s fl i arg strat im hacc hi
+
+/-- without an accumulator (non-empty list): prologue, exactly one `emitLoop` from the first cell to the
+    marker starting from the value-initialised result 0, epilogue -/
+theorem plain_one_loop (f : Nat) (P : Prog) (s : St) (fl : Flavour) (i arg : Nat) (strat : Strat) (im : Impl)
+    (hacc : fl.isAcc = false) (hi : aget s.impls i = some im) (hne : im.cells ≠ []) :
+    emitImpl (f+1) P s fl (some i) arg strat =
+      (match emitLoop f P (emitPrologue s i im) i (emitFirst s im) s.next arg 0 with
+       | none => none
+       | some (s2, o, v) => some (emitEpilogue s2 i s.next o v)) :=
+  emitImpl_plain_unfold f P s fl i arg strat im hacc hi hne
+
+/-- `emit()` returns what the accumulator / the loop returned: the epilogue passes outcome and value through -/
+theorem emit_returns_accumulator_result (s : St) (i m : Nat) (o : Outcome) (v : Nat) :
+    (emitEpilogue s i m o v).2 = (o, v) :=
+  emitEpilogue_passes s i m o v
+
+/-- consequence: the value and outcome of an accumulated emission are exactly those of its one `runStrat` call -/
+theorem emit_acc_value (f : Nat) (P : Prog) (s s' : St) (fl : Flavour) (i arg : Nat) (strat : Strat) (im : Impl)
+    (o : Outcome) (v : Nat) (hacc : fl.isAcc = true) (hi : aget s.impls i = some im)
+    (h : emitImpl (f+1) P s fl (some i) arg strat = some (s', o, v)) :
+    ∃ s2, runStrat f P (emitPrologue s i im) i (emitFirst s im) s.next arg strat = some (s2, o, v) ∧
+          s' = (emitEpilogue s2 i s.next o v).1 := by
+  rw [acc_called_once f P s fl i arg strat im hacc hi] at h
+  split at h
+  · simp at h
+  · rename_i s2 o2 v2 hr
+    have hp := emitEpilogue_passes s2 i s.next o2 v2
+    simp at h
+    rw [h] at hp
+    simp at hp
+    obtain ⟨rfl, rfl⟩ := hp
+    exact ⟨s2, hr, by rw [h]⟩
+
+/-- the range handed to the accumulator: `first` is the head of the list at emission start, and the
+    marker is the last cell of the list the accumulator walks -/
+theorem acc_range (s : St) (i : Nat) (im : Impl) :
+    (∃ im', aget (emitPrologue s i im).impls i = some im' ∧
+        im'.cells.map (·.id) = im.cells.map (·.id) ++ [s.next] ∧
+        im'.exec = im.exec + 1 ∧ im'.holders = im.holders + 1) ∧
+    emitFirst s im = ((im.cells.map (·.id)) ++ [s.next]).head (by simp) := by
+  constructor
+  · exact ⟨{ im with exec := im.exec + 1, holders := im.holders + 1,
+                       cells := im.cells ++ [{ id := s.next, slot := {}, linked := false }] },
+            aget_aset_same _ _ _, by simp, rfl, rfl⟩
+  · unfold emitFirst
+    cases im.cells <;> simp
+
+example : (emitImpl 10 exProg exSt .A (some 1) 5 .sum).map (·.2.2) = some 340 := by decide +kernel
+example : (emitImpl 10 exProg exSt .A (some 1) 5 .rev).map (·.2.2) = some 265 := by decide +kernel
+example : (emitImpl 10 exProg exSt .A (some 1) 5 .never).map (·.2.2) = some 4 := by decide +kernel
+example : (emitImpl 10 exProg exSt .A (some 1) 5 (.stop 60)).map (·.2.2) = some 75 := by decide +kernel
+example : (emitImpl 10 exProg exSt .I (some 1) 5 .sum).map (·.2.2) = some 95 := by decide +kernel
 
 end Sigc.C13
